@@ -261,20 +261,6 @@ class DefaultRender(TypeRender):
             return self.NAT[f['dflt']]
         return 'PK<%d>' % i
 
-    def lit_text(self, kind, i):
-        return {'int': '%d' % (10 + i), 'str': '"%d"' % (10 + i), 'bool': 'true', 'char': "'%d'" % i,
-                'float': '%d.0' % (10 + i), 'expr': 'probes::pexpr(%d)' % (10 + i)}[kind]
-
-    def extra_field_metas(self, v, i, f):
-        from render import pick
-        key = (self.idx, v, i)
-        if f['dflt'] != 'none':
-            t = self.lit_text(f['dflt'], i)
-            return [pick(['Default = %s', 'Default(expression = %s)', 'Default(expr = %s)', 'Default(expression(%s))', 'Default(expr(%s))'], 'dfl', key) % t]
-        if f.get('deref') and self.cfg['kind'] == 'union':
-            return ['Default']
-        return []
-
     def type_default_expr(self):
         c = self.cfg
         v = len(c['variants'])
@@ -325,7 +311,7 @@ def c08(ctx):
 # ---------------------------------------------------------------- C09
 class DerefRender(TypeRender):
     def extra_items(self):
-        return self.addrs_impl()
+        return self.addrs_impl() + ' ' + super().extra_items()
 
 
 def c09(ctx):
@@ -402,7 +388,122 @@ def c20(ctx):
                'hasher feed against the feed of the byte slice itself, the bytes of the clone, == against every pattern; non-trivial = more than one field or a name setting')
 
 
+# ---------------------------------------------------------------- expansion-level helpers
+import xchan
+import xpipe
+import tlc as tlcmod
+
+
+def model_check_tagged(ctx, runs, tag):
+    """like rpipe.model_check but collects lines of another tag (SITES, PAIRS, ...)"""
+    out = []
+    states = transitions = 0
+    cover = {}
+    exhaustive = True
+    mc_runs = []
+    for r in runs:
+        sim = r.get('simulate')
+        res = tlcmod.run_mc(r['module'], r['cfg'], ctx.workdir, workers=r.get('workers', 8), timeout=r.get('timeout', 900),
+                            simulate=sim, seed=ctx.seed if sim else None, heap=r.get('heap', '8g'), tags=(tag, 'CORPUS', 'SPELL'))
+        ctx.info('TLC %s/%s: %s' % (r['module'], r['cfg'], res['stats']))
+        if not res['ok']:
+            raise ToolError('model checking of %s with %s failed (violated=%s):\n%s' % (r['module'], r['cfg'], res['violated'], '\n'.join(res['text'].split('\n')[-60:])))
+        if sim:
+            exhaustive = False
+        states += res['stats'].get('distinct', 0)
+        transitions += res['stats'].get('generated', 0)
+        for k, v in res['coverage'].items():
+            cover[k] = cover.get(k, 0) + v
+        out += res['tagged'][tag]
+        mc_runs.append({'module': r['module'], 'cfg': r['cfg'], 'simulate': sim, 'stats': res['stats'], 'emitted': len(res['tagged'][tag])})
+    ctx.coverage['states'] = states
+    ctx.coverage['transitions'] = transitions
+    ctx.coverage['coverage_per_action'] = cover
+    ctx.coverage['mc_runs'] = mc_runs
+    ctx.coverage['exhaustive'] = exhaustive
+    return out
+
+
+class MultiRender(TypeRender):
+    """multi-trait items for the expansion channel (never compiled: field types only need to parse)"""
+
+    def type_default_expr(self):
+        return 'todo!()'
+
+
+X_ASSUMPTIONS = [
+    'TLC 1.8 and the CommunityModules Json reader are trusted',
+    'the renderer (lib/render.py) maps an abstract input to the tokens it denotes; its spellings come from spec/EduceSpell.tla',
+    'in-process expansion runs the unchanged derive_input_handler under proc_macro2 fallback mode (harness/inproc, hook magiclen_educe_verif); '
+    'observations that could depend on the token printer are confirmed through the real compiler before they are reported',
+]
+
+
+# ---------------------------------------------------------------- C14
+def c14(ctx):
+    quick = ctx.tier == 'quick'
+    runs = [{'module': 'MC_C14', 'cfg': 'MC_C14_quick.cfg', 'workers': 8}] if quick else \
+           [{'module': 'MC_C14', 'cfg': 'MC_C14_thorough.cfg', 'workers': 12, 'timeout': 3000, 'heap': '16g'}]
+    recs = model_check_tagged(ctx, runs, 'SITES')
+    exe = xchan.build(ctx)
+    requests = []
+    meta = {}
+    info = {}
+    n_groups = 0
+    for ci, rec in enumerate(recs, 1):
+        cfg = rec['cfg']
+        sites = rec['sites']
+        # generator echo (S6): the sites the specification lists are exactly the sites the renderer visits
+        base = MultiRender(ci, cfg, 'C14', canonical=True)
+        base_text = base.item(derive=False)
+        visited = {(s, c) for (s, c, n) in base.sites}
+        listed = {(s['site'], s['cls']) for s in sites}
+        if visited != listed:
+            raise ToolError('spelling sites disagree for configuration %d: spec-only %s, renderer-only %s\n%s'
+                            % (ci, sorted(listed - visited), sorted(visited - listed), base_text))
+        for s in sites:
+            if s['n'] < 2:
+                continue
+            n_groups += 1
+            g = 'c%d:%s' % (ci, s['site'])
+            for m in range(1, s['n'] + 1):
+                r = MultiRender(ci, cfg, 'C14', overrides={s['site']: m}, canonical=True)
+                text = r.item(derive=False)
+                rid = '%s#%d' % (g, m)
+                requests.append({'id': rid, 'text': text})
+                meta[rid] = {'mode': 'same', 'g': g, 'reset': m == 1}
+                info[rid] = (ci, s, m, text)
+    ctx.info('%d configurations, %d spelling groups, %d expansions' % (len(recs), n_groups, len(requests)))
+    trace, raw = xpipe.run_requests(ctx, exe, requests, meta)
+    res = xpipe.validate(ctx, trace)
+    lines = rpipe.load_lines(trace, res['bad'])
+    seen_groups = set()
+    for ln in res['bad']:
+        e = lines[ln]
+        if e['g'] in seen_groups:
+            continue
+        seen_groups.add(e['g'])
+        ci, s, m, text = info[e['id']]
+        members = [(k, info['%s#%d' % (e['g'], k)][3]) for k in range(1, s['n'] + 1)]
+        outs = {r['id']: r for r in raw if r['id'].startswith(e['g'] + '#')}
+        ctx.violation({'kind': 'spelling-group', 'cfg': recs[ci - 1]['cfg'], 'site': s['site'], 'class': s['cls']},
+                      {'what': 'members of one spelling group (same request, different spelling at one site) expanded differently or were refused',
+                       'members': [{'member': k, 'text': t, 'outcome': outs['%s#%d' % (e['g'], k)]['outcome'],
+                                    'err': outs['%s#%d' % (e['g'], k)].get('err'), 'out': outs['%s#%d' % (e['g'], k)].get('out')} for k, t in members]})
+    ctx.coverage.update({
+        'traces_validated_against_impl': 1, 'trace_events': res['n'], 'trace_events_rejected': len(res['bad']),
+        'programs': len(recs), 'evaluations': len(requests), 'distinct_nontrivial': n_groups,
+        'rule': 'multi-trait struct/enum configurations with at most MaxDeviations non-default settings (t-way); for every spelling site the specification lists '
+                '(EduceSpell classes: p = v / p(v), ident/path/int/predicate vs string literal, name/rename, expression/expr, Trait = X shorthands, ignore forms, '
+                'one list vs several attributes, trait order, parameter order) one group with every member of the class, everything else canonical; '
+                'distinct_nontrivial = number of groups with at least two members',
+        'samples': [{'group': requests[0]['id'].split('#')[0], 'members': [r['text'] for r in requests[:4]]}] if requests else [],
+    })
+    ctx.assumptions += X_ASSUMPTIONS
+
+
 REGISTRY = {
+    'C14': c14,
     'C20': c20,
     'C10': c10,
     'C09': c09,
